@@ -138,6 +138,7 @@ func runCheck(prop, tier string, seed int) int {
 	var toolErrs []string
 	var failed []*Oblig
 	var all []*Oblig
+	otherProp := 0
 	for _, r := range res {
 		if r.Err != nil {
 			toolErrs = append(toolErrs, r.Err.Error())
@@ -164,6 +165,11 @@ func runCheck(prop, tier string, seed int) int {
 				continue
 			}
 			if !o.ok() {
+				// an obligation tagged for another property is decided by that property's check
+				if tp := tagProp(o.Tag); tp != "" && tp != prop {
+					otherProp++
+					continue
+				}
 				failed = append(failed, o)
 			}
 		}
@@ -176,8 +182,13 @@ func runCheck(prop, tier string, seed int) int {
 	var knownHit []string
 	replayDir := filepath.Join(verifDir, "out", "replay", prop)
 	os.MkdirAll(replayDir, 0o755)
+	seenStable := map[string]bool{}
 	for i, o := range failed {
 		sn := stableName(o)
+		if seenStable[sn] {
+			continue
+		}
+		seenStable[sn] = true
 		isKnown := false
 		for _, k := range known {
 			if k.Property == prop && k.Status == "known" && k.Obligation == sn {
@@ -215,6 +226,9 @@ func runCheck(prop, tier string, seed int) int {
 		if !o.Cover {
 			nob++
 		}
+	}
+	if otherProp > 0 {
+		fmt.Printf("note: %d failed obligations belong to other properties (by clause tag) and are reported by their checks\n", otherProp)
 	}
 	fmt.Printf("%s: %d functions/lemmas, %d obligations, %d discharged, %d known findings, %d violations, %d tool errors, %.1fs\n", prop, len(res), nob, nd, len(knownHit), violations, len(toolErrs), wall)
 	if violations > 0 {
@@ -332,6 +346,15 @@ func writeEvidence(prop, tier string, seed int, res []*fnResult, all []*Oblig, c
 	os.MkdirAll(filepath.Join(verifDir, "evidence"), 0o755)
 	b, _ := json.MarshalIndent(ev, "", " ")
 	os.WriteFile(filepath.Join(verifDir, "evidence", prop+".json"), b, 0o644)
+}
+
+var tagPropRe = regexp.MustCompile(`^(C\d\d)\.`)
+
+func tagProp(tag string) string {
+	if m := tagPropRe.FindStringSubmatch(tag); m != nil {
+		return m[1]
+	}
+	return ""
 }
 
 func cmdList(args []string) {
